@@ -179,6 +179,8 @@ def _lgbn(st, g):
                     rows = list(product((-1, 0, 2), repeat=len(obs)))
                     rows = rows[:: max(1, len(rows) // 4)][:4]
                     df = pd.DataFrame(rows, columns=[NAMES[v] for v in obs], dtype=float)
+                    if len(obs) % 2 == 0:
+                        df.index = [3 * (len(df) - i) + 2 for i in range(len(df))]  # the index is not content
                     case = dict(base, site="predict", missing=list(miss))
                     st.evals += 1
                     st.transitions += 1
@@ -229,6 +231,8 @@ def _fit(st, g):
                 continue
             for shift in (0, 5):
                 data = pd.DataFrame([[float(x + shift * (i == 1)) for i, x in enumerate(r[:n])] for r in base_rows], columns=NAMES[:n])
+                if shift:
+                    data.index = [3 * (len(data) - i) + 2 for i in range(len(data))]  # the index is not content
                 case = {"g": g, "site": "fit", "coef": [list(x) for x in e], "ivar": [n, shift]}
                 m = LinearGaussianBayesianNetwork()
                 m.add_nodes_from(NAMES[:n])
